@@ -465,13 +465,20 @@ def run(ctx):
     ctx.cov["input_distribution"] = dist
     ctx.sample({"stream": "S-z3", "spec": specs[0], "instance": res[0]["instance"], "placements": res[0].get("placements")})
 
-    def monitor(name, fn, cases, wh, what, known_sig=None, known_name=None):
+    def monitor(name, fn, cases, wh, what, known_sig=None, known_name=None, only=None):
+        """apply a Gallina monitor; `only` restricts it to a subset of case indices (second pass)"""
+        idx = list(range(len(cases))) if only is None else sorted(only)
+        if not idx:
+            return []
         try:
             bad = ctx.monitor_stream(name, HEADER, "instance * list (var * Z)" if cases is pts else "instance * list decision",
-                                     fn, cases, shard=120)
+                                     fn, [cases[k] for k in idx], shard=150)
         except core.ModelEvalError as e:
             ctx.broken.append({"kind": "monitor", "name": name, "detail": str(e)[-500:]})
-            return
+            return []
+        bad = [idx[b] for b in bad]
+        if what is None:
+            return bad
         n_known = 0
         shown = 0
         for b in bad:
@@ -490,18 +497,26 @@ def run(ctx):
                 ctx.violation("%s_%d" % (name.replace("-", ""), b), rep)
         if known_name:
             dist["failing_under_signature_" + known_name] = n_known
+        return bad
 
+    # first pass: the conjunction of the three point monitors on every point; second pass: each monitor on the
+    # points that failed the conjunction (on the unchanged tree: only points of instances outside the capacity
+    # theorem's hypotheses)
+    suspects = monitor("S-z3-points", "(fun p => let a := asg_of (snd p) in andb (decisions_ok (fst p) a) (andb (slots_ok (fst p) a) "
+                                      "(capacity_ok (fst p) a)))", pts, where, None)
+    dist["points"] = len(pts)
+    dist["points_failing_some_monitor"] = len(suspects)
     monitor("S-z3-decisions", "(fun p => decisions_ok (fst p) (asg_of (snd p)))", pts, where,
             "a feasible point of the asserted system does not read back as one well-formed decision per offered task "
-            "(existing worker of the named pool, start >= now and >= release)")
+            "(existing worker of the named pool, start >= now and >= release)", only=suspects)
     monitor("S-z3-returned", "(fun p => returned_ok (fst p) (snd p))", ret, ret_where,
             "the returned placements are not exactly one well-formed decision per offered task")
     monitor("S-z3-slots", "(fun p => slots_ok (fst p) (asg_of (snd p)))", pts, where,
             "two tasks whose executions touch on one worker hold the same resource slot in a feasible point",
-            known_sig=lambda ins: not chain_closed(ins), known_name="open_chain")
+            known_sig=lambda ins: not chain_closed(ins), known_name="open_chain", only=suspects)
     monitor("S-z3-capacity", "(fun p => capacity_ok (fst p) (asg_of (snd p)))", pts, where,
             "the demand of the tasks executing at some start instant exceeds a worker's available quantity in a feasible point",
-            known_sig=lambda ins: not wf_capacity(ins), known_name="FZ3-D")
+            known_sig=lambda ins: not wf_capacity(ins), known_name="FZ3-D", only=suspects)
     replay_known(ctx)
 
 
